@@ -21,9 +21,13 @@ def header(ver, spc, nbat, size_sectors, first_block, *, sig=None, in_use=0, hea
     return h
 
 
-def build(img, *, cluster_size=1 << 20, file_id=0, P=None, size_bytes=None, hdr_kw=None, name=None):
-    """img: {"ver","n","cb","bat","size"} (entries: v2 cluster positions, v1 *cell* positions) -> (VirtualFile, info)."""
+def build(img, *, cluster_size=1 << 20, file_id=0, P=None, size_bytes=None, hdr_kw=None, name=None, pos_shift=0):
+    """img: {"ver","n","cb","bat","size"} (entries: v2 cluster positions, v1 *cell* positions) -> (VirtualFile, info).
+    pos_shift: added to every allocated position (clusters for v2, cells for v1): entries with the top bit set."""
     cb, n, ver = img["cb"], img["n"], img["ver"]
+    if pos_shift:
+        img = dict(img, bat={i: (e + pos_shift if e else 0) for i, e in img["bat"].items()})
+        P = (P if P is not None else max(img["bat"].values())) + pos_shift
     cell = cluster_size // cb
     assert cell * cb == cluster_size and cell % 512 == 0
     spc = cluster_size // 512
@@ -49,7 +53,7 @@ def build(img, *, cluster_size=1 << 20, file_id=0, P=None, size_bytes=None, hdr_
     if data[1] > 0:
         ext.append((data[0], data[1], "pat", file_id))
     vf = VirtualFile(max(data[0] + data[1], 64 + len(bat)), ext, fid=file_id, name=name)
-    return vf, {"cell": cell, "size": size_b, "base": 0}
+    return vf, {"cell": cell, "size": size_b, "base": pos_shift * (cluster_size if ver == 2 else cell)}
 
 
 def descriptor_xml(storages, shots, top_guid=DEFAULT_TOP, disk_size=None, extra=""):
